@@ -219,3 +219,183 @@ def _add_interval_case(qualname, pname, sign):
 
 _add_interval_case("pendulum.date.Date.__add__", "other", 1)
 _add_interval_case("pendulum.date.Date._add_timedelta", "delta", 1)
+
+
+# ========================================================================================== weekday navigation (C16)
+from pendulum.day import WeekDay
+
+
+def dist_next(self, dow):
+    """days to the nearest strictly later date that falls on weekday dow (Monday = 0): 1..7"""
+    return sym.add(sym.fmod(sym.sub(sym.sub(dow, spec.weekday0(self.year, self.month, self.day)), 1), 7), 1)
+
+
+def dist_prev(self, dow):
+    return sym.add(sym.fmod(sym.sub(sym.sub(spec.weekday0(self.year, self.month, self.day), dow), 1), 7), 1)
+
+
+def _nav_args(F):
+    o, c = stdlib.fresh_date(F, pendulum.Date, "self")
+    return dict(self=o, day_of_week=F.int("day_of_week")), [c]
+
+
+def _nav_contract(qualname, sign):
+    dist = dist_next if sign > 0 else dist_prev
+
+    def _inv(e, en, a):
+        j = sym.mul(sym.sub(spec.date_ord(e.dt), spec.date_ord(a.self)), sign)
+        return [("steps", And(ge(j, 1), le(j, dist(a.self, e.day_of_week)))),
+                ("valid", spec.valid_date(e.dt.year, e.dt.month, e.dt.day)),
+                ("weekday_argument", And(eq(e.day_of_week, a.day_of_week), sym.between(0, e.day_of_week, 6))),
+                ("class", e.dt.cls is a.self.cls)]
+
+    @contract(qualname, props=["C16", "C12"])
+    class nav:
+        args = _nav_args
+
+        def applies(self, day_of_week=None):
+            return _is_pdate(self) and day_of_week is not None
+
+        def requires(self, day_of_week):
+            o = sym.add(spec.date_ord(self), sym.mul(7, sign))
+            return [("within_the_calendar", And(ge(o, 1), le(o, spec.MAXORD)))]
+
+        raises = [(ValueError, "invalid_weekday", lambda self, day_of_week: Not(sym.between(0, day_of_week, 6)))]
+
+        def result(F, self, day_of_week):
+            o, _ = stdlib.fresh_date(F, self.cls, "nav")
+            return o
+
+        def ensures(result, self, day_of_week):
+            return [("valid_fields", spec.valid_date(result.year, result.month, result.day)), ("class", result.cls is self.cls),
+                    ("falls_on_the_weekday", eq(spec.weekday0(result.year, result.month, result.day), day_of_week)),
+                    ("nearest_strictly_later_or_earlier_1_to_7_days", eq(spec.date_ord(result), sym.add(spec.date_ord(self), sym.mul(dist(self, day_of_week), sign))))]
+
+        loops = {0: Loop(_inv, variant=lambda e, en, a: sym.sub(dist(a.self, e.day_of_week), sym.mul(sym.sub(spec.date_ord(e.dt), spec.date_ord(a.self)), sign)))}
+
+    return nav
+
+
+_nav_contract("pendulum.date.Date.next", 1)
+_nav_contract("pendulum.date.Date.previous", -1)
+
+transparent("pendulum.date.Date.set", "pendulum.date.Date.replace", "pendulum.date.Date._first_of_month", "pendulum.date.Date._last_of_month",
+            "pendulum.date.Date._first_of_quarter", "pendulum.date.Date._last_of_quarter", "pendulum.date.Date._first_of_year",
+            "pendulum.date.Date._last_of_year", "pendulum.date.Date._start_of_day", "pendulum.date.Date._end_of_day",
+            why="small helper: its real body is re-executed where it is called (first_of / last_of / start_of are the contracted entry points)")
+
+
+def unit_months(self, unit):
+    """(first month, last month) of the month / quarter / year that contains the date"""
+    if unit == "month":
+        return self.month, self.month
+    if unit == "quarter":
+        q = spec.quarter(self.month)
+        return sym.sub(sym.mul(q, 3), 2), sym.mul(q, 3)
+    return 1, 12
+
+
+def first_wd(y, m, dow):
+    return sym.add(1, sym.fmod(sym.sub(dow, spec.weekday0(y, m, 1)), 7))
+
+
+def last_wd(y, m, dow):
+    last = spec.dim(y, m)
+    return sym.sub(last, sym.fmod(sym.sub(spec.weekday0(y, m, last), dow), 7))
+
+
+def _of_contract(qualname, first):
+    def mkcase(unit, with_dow):
+        class case:
+            def applies(self, unit, day_of_week=None, _u=unit, _w=with_dow):
+                return _is_pdate(self) and unit == _u and (day_of_week is not None) == _w
+
+            def args(F):
+                o, c = stdlib.fresh_date(F, pendulum.Date, "self")
+                return dict(self=o, unit=unit, day_of_week=F.int("day_of_week") if with_dow else None), [c]
+
+            def requires(self, unit, day_of_week):
+                return [("weekday_0_to_6", True if day_of_week is None else sym.between(0, day_of_week, 6))]
+
+            def result(F, self, unit, day_of_week):
+                o, _ = stdlib.fresh_date(F, self.cls, "of")
+                return o
+
+            def ensures(result, self, unit, day_of_week):
+                m1, m2 = unit_months(self, unit)
+                mth = m1 if first else m2
+                if day_of_week is None:
+                    day = 1 if first else spec.dim(self.year, mth)
+                else:
+                    day = first_wd(self.year, mth, day_of_week) if first else last_wd(self.year, mth, day_of_week)
+                out = [("valid_fields", spec.valid_date(result.year, result.month, result.day)), ("class", result.cls is self.cls),
+                       ("inside_the_unit", And(eq(result.year, self.year), eq(result.month, mth))),
+                       ("the_first_or_last_such_day", eq(result.day, day))]
+                if day_of_week is not None:
+                    out.append(("falls_on_the_weekday", eq(spec.weekday0(result.year, result.month, result.day), day_of_week)))
+                return out
+
+        return case
+
+    cases = {}
+    for unit in ("month", "quarter", "year"):
+        cases[f"{unit}.weekday"] = mkcase(unit, True)
+        cases[f"{unit}.plain"] = mkcase(unit, False)
+    ns = type("of", (), {"cases": cases})
+    contract(qualname, props=["C16", "C15", "C12"])(ns)
+
+
+_of_contract("pendulum.date.Date.first_of", True)
+_of_contract("pendulum.date.Date.last_of", False)
+
+
+@contract("pendulum.date.Date.week_of_month", props=["C15"])
+class week_of_month:
+    args = _self_date
+
+    def value(self):
+        # row (1-based) of calendar.monthcalendar that holds the day: Monday-first weeks
+        return sym.add(sym.fdiv(sym.sub(sym.add(self.day, spec.weekday0(self.year, self.month, 1)), 1), 7), 1)
+
+from pendulum.exceptions import PendulumException
+
+
+def _nth_inv(e, en, a):
+    """after i iterations dt is the i-th step from the first day of the month towards the n-th weekday"""
+    y, m = a.self.year, a.self.month
+    first_ord = spec.ordinal(y, m, 1)
+    f = first_wd(y, m, a.day_of_week)
+    on_first = eq(spec.weekday0(y, m, 1), a.day_of_week)
+    i = e["__i__"]
+    off = If(eq(i, 0), 0, sym.add(sym.sub(f, 1), sym.mul(7, sym.add(sym.sub(i, 1), sym.b2i(on_first)))))
+    return [("position", eq(spec.date_ord(e.dt), sym.add(first_ord, off))), ("valid", spec.valid_date(e.dt.year, e.dt.month, e.dt.day)),
+            ("class", e.dt.cls is a.self.cls), ("bound", le(i, en["__n__"])),
+            ("check_is_the_instance_month", And(eq(e.check.year, y), eq(e.check.month, m)))]
+
+
+@contract("pendulum.date.Date._nth_of_month", props=["C16"])
+class nth_of_month:
+    def args(F):
+        o, c = stdlib.fresh_date(F, pendulum.Date, "self")
+        return dict(self=o, nth=F.int("nth"), day_of_week=F.int("day_of_week")), [c]
+
+    def requires(self, nth, day_of_week):
+        return [("n_and_weekday_in_range", And(sym.between(1, nth, 54), sym.between(0, day_of_week, 6))),
+                ("within_the_calendar", le(sym.add(spec.ordinal(self.year, self.month, 1), sym.mul(7, 55)), spec.MAXORD))]
+
+    @staticmethod
+    def _day(self, nth, day_of_week):
+        return sym.add(first_wd(self.year, self.month, day_of_week), sym.mul(7, sym.sub(nth, 1)))
+
+    def result(F, self, nth, day_of_week):
+        raise NotImplementedError("result is an object or None: used through nth_of only")
+
+    def ensures(result, self, nth, day_of_week):
+        d = nth_of_month._day(self, nth, day_of_week)
+        fits = le(d, spec.dim(self.year, self.month))
+        if result is None:
+            return [("none_exactly_when_the_month_has_fewer", Not(fits))]
+        return [("n_th_weekday_inside_the_month", And(fits, eq(result.year, self.year), eq(result.month, self.month), eq(result.day, d))),
+                ("class", result.cls is self.cls)]
+
+    loops = {0: Loop(_nth_inv)}
